@@ -51,7 +51,7 @@ and hand them, together with the byte hypotheses in the context, to `bv_decide`.
 macro "st_decide" : tactic =>
   `(tactic| (simp only [code_inj, ne_eq, code_step, code_start, code_dead] at *
              simp only [Byte, stepC, inR] at *
-             bv_decide))
+             bv_decide (timeout := 300)))
 
 /-! ### `run` -/
 
